@@ -272,6 +272,21 @@ def test_mask_reaches_configs_nested_in_containers():
     assert "TOPSECRET" in repr(cfg.to_tree())
 
 
+def test_declared_field_governs_key_of_older_dynamic_value(tmp_path):
+    key = tmp_path / "k.key"
+    key.write_bytes(bytes(range(32)))
+    s = cc.Schema(dynamic=True)
+    cfg = cc.Config(s, key_filename=str(key))
+    cfg.late = "LATESECRET"
+    cfg.token = "TOKENSECRET"
+    s.late = cc.StringField(sensitive=True)
+    s.token = cc.SecureField(method="xor")
+    assert "LATESECRET" not in repr(cfg.to_tree(sensitive_mask="*"))
+    assert b"LATESECRET" not in cfg.dumps("json", sensitive_mask="XX")
+    assert b"TOKENSECRET" not in cfg.dumps("json")
+    assert cfg.to_tree()["late"] == "LATESECRET"
+
+
 @pytest.mark.xfail(reason="known finding C15: reference paths of configurations inside nested containers", strict=True)
 def test_known_nested_container_paths():
     item = cc.Schema()
